@@ -1,3 +1,7 @@
 import KojenVerif.Basic.Str
+import KojenVerif.Basic.Path
 import KojenVerif.Model.Preserv
+import KojenVerif.Model.Pipeline
 import KojenVerif.Lemmas.Preserv
+import KojenVerif.Generated.Facts
+import KojenVerif.Generated.Templates
